@@ -3,4 +3,4 @@
 n=$1; dir=${2:-/tmp/neu/out3}; wt=/var/tmp/nw/$n; pid=${3:-${n%%-*}}
 mkdir -p /var/tmp/nw
 if [ ! -d $wt ]; then git -C /repo worktree add -q --detach $wt HEAD && git -C $wt apply $dir/$n/patch.diff || exit 2; fi
-/verif/check $pid --repo $wt | grep -E "^==|  rule|BROKEN|Error|error" | cut -c1-${W:-600}
+QV_EVIDENCE_DIR=/var/tmp/nw/.evidence /verif/check $pid --repo $wt | grep -E "^==|  rule|BROKEN|Error|error" | cut -c1-${W:-600}
